@@ -24,10 +24,10 @@ Pool == [k \in 1..Len(PoolText) |-> Parse(PoolText[k])]
 NP == Len(PoolText)
 
 ASSUME InitRegisters
-ASSUME TLCSet(2, Base)
-ASSUME TLCSet(3, Pool)
+ASSUME TLCSet(2, Norm(Base))
+ASSUME TLCSet(3, Norm(Pool))
 \* the values the pool expressions denote
-ASSUME TLCSet(4, [k \in 1..NP |-> LET r == Run(<<Pool[k]>>) IN IF Ok(r) THEN r.v ELSE Assert(FALSE, <<"pool", k, r.k>>)])
+ASSUME TLCSet(4, Norm([k \in 1..NP |-> LET r == Run(<<Pool[k]>>) IN IF Ok(r) THEN r.v ELSE Assert(FALSE, <<"pool", k, r.k>>)]))
 
 \* sanity of the oracle: StructEq is an equivalence relation on the pool
 ASSUME LET V == TLCGet(4) IN
